@@ -73,7 +73,16 @@ fn export_types(db: &DbIndex) -> Vec<Type> {
     let type_index = db.get_type_index();
     let module_index = db.get_module_index();
     let mut types = type_index.get_all_types();
-    types.sort_by(|a, b| a.get_full_name().cmp(b.get_full_name()));
+    // file-scoped and internal types of different files may share a full name: order those by
+    // where they are declared, otherwise their relative order is the index's hash-map order
+    types.sort_by_cached_key(|type_decl| {
+        let first_location = type_decl
+            .get_locations()
+            .iter()
+            .map(|loc| (loc.file_id.id, u32::from(loc.range.start())))
+            .min();
+        (type_decl.get_full_name().to_string(), first_location)
+    });
 
     types
         .into_iter()
